@@ -55,6 +55,7 @@ var (
 	randSeen                   = map[string]bool{}
 	randDup                    int
 	sharedPeer, sharedPeerSnap *big.Int
+	sharedCT, sharedCTSnap     []byte
 )
 
 func digest(v any) string {
@@ -426,6 +427,21 @@ func runOp(kind string, g int, seed int64, i int) (out string) {
 		p.EncryptionAlgorithm.BuildTransform(1, 12, u16p(14), u16p(256), nil)
 		b, err := c.Encode()
 		return digest(J{"wire": octOf(b), "err": err != nil})
+	case "decrypt_shared":
+		// every goroutine has its own cipher object (all keyed alike) and decrypts ONE ciphertext the callers share read-only
+		t := encr.StrToType(encrNames[256])
+		c, err := t.NewCrypto([]byte(fillPattern("seeded", 32, 7)))
+		if err != nil {
+			return "infra: " + err.Error()
+		}
+		pt, err := c.Decrypt(sharedCT)
+		if string(sharedCT) != string(sharedCTSnap) {
+			return "absolute: the ciphertext (an input shared read-only by concurrent Decrypt calls on separate cipher objects) was written by Decrypt"
+		}
+		if err != nil {
+			return "err: " + err.Error()
+		}
+		return digest(J{"pt": octOf(pt)})
 	case "cipher":
 		o := actCipherNew(e, J{"name": "c", "bits": []int{128, 192, 256}[g%3], "key": fillPattern("seeded", []int{16, 24, 32}[g%3], g)})
 		if o["err"] == true {
@@ -470,6 +486,10 @@ func raceMain(argv []string) int {
 		sharedSnap = append([]byte{}, sharedWire...)
 		sharedPeer = new(big.Int).SetBytes(dh.StrToType(dhNames[14]).GetPublicValue(new(big.Int).SetBytes(fillPattern("seeded", 64, 99))))
 		sharedPeerSnap = new(big.Int).Set(sharedPeer)
+		if c, err := encr.StrToType(encrNames[256]).NewCrypto([]byte(fillPattern("seeded", 32, 7))); err == nil {
+			sharedCT, _ = c.Encrypt([]byte(fillPattern("seeded", 333, 8)))
+			sharedCTSnap = append([]byte{}, sharedCT...)
+		}
 		nonceArena = []byte(fillPattern("seeded", 64*64+64, 77))
 		nonceSnap = append([]byte{}, nonceArena...)
 	}
